@@ -288,6 +288,67 @@ func runC12(c *mon.Ctx) {
 		}
 	}
 
+	// ---- the limit in force is the one configured now, also on an SP that has already handled messages ----
+	rk := 0
+	for _, from := range []int64{0, 4096, 1 << 20} {
+		for _, to := range []int64{2048, 64 << 10, 0, 8 << 20} {
+			if from == to {
+				continue
+			}
+			for ei, ep := range eps {
+				if ep.fixed {
+					continue
+				}
+				rk++
+				cs := c.Begin("limit-reconfigured", rk)
+				if cs == nil {
+					continue
+				}
+				effTo := to
+				if effTo == 0 {
+					effTo = c12Default
+				}
+				warm, signedW, _ := pad(ep.kind, 3000)
+				over, signedO, _ := pad(ep.kind, effTo+1)
+				within, signedI, _ := pad(ep.kind, effTo-1)
+				_ = signedW
+				cs.Desc("limit %d -> %d entry=%s", from, to, ep.name)
+				sp := mkSP(false, from)
+				enc := func(d string) string { return base64.StdEncoding.EncodeToString(sim.Deflate([]byte(d), 6)) }
+				var e0, e1, e2 error
+				var got2, twin2 string
+				var terr error
+				pv, _ := mon.Guard(func() {
+					sp.SkipSignatureValidation = true
+					_, e0 = ep.call(sp, enc(warm)) // first use under the old limit
+					sp.MaximumDecompressedBodySize = to
+					sp.SkipSignatureValidation = !signedO
+					_, e1 = ep.call(sp, enc(over))
+					sp.SkipSignatureValidation = !signedI
+					got2, e2 = ep.call(sp, enc(within))
+					twin2, terr = ep.call(mkSP(signedI, to), base64.StdEncoding.EncodeToString([]byte(within)))
+				})
+				if pv != nil {
+					cs.Violation("panic", "panic: %v", pv)
+					continue
+				}
+				cs.Nontrivial(cs.Description())
+				_ = e0
+				switch {
+				case e1 == nil:
+					cs.Violation("over-limit-accepted:after-reconfiguration", "limit changed %d -> %d on a used SP: a document inflating to %d was not rejected", from, to, effTo+1)
+				case c12Class(e2) == "over-limit":
+					cs.Violation("within-limit-rejected:after-reconfiguration", "limit changed %d -> %d on a used SP: a document inflating to %d <= limit rejected as over the limit", from, to, effTo-1)
+				case c12Class(e2) != c12Class(terr) || (e2 == nil && got2 != twin2):
+					cs.Violation("not-transparent:after-reconfiguration", "compressed outcome %q differs from the uncompressed twin's %q", c12Class(e2), c12Class(terr))
+				default:
+					cs.Outcome("reconfigured-limit-in-force")
+				}
+				_ = ei
+			}
+		}
+	}
+
 	// ---- bombs ----
 	bombCache := map[int64][]byte{}
 	bomb := func(n int64) []byte {
